@@ -362,6 +362,15 @@ def build_family(tier, seed):
             cx, _ = fam.thin(cx, 1500 if not thorough else 15000, seed + 2)
             groups[f"unary-complex/{nm}"] = ([dict(body="body_unary", spec=c, complex=True, validate=(i % 60 == 0), sample=(i % 700 == 0), seed=seed + i)
                                               for i, c in enumerate(cx)], False)
+            # mixed arrays (as produced by real + complex with different stored sectors): the first stored block real, the rest complex
+            mx = []
+            for c in un:
+                a = c["a"]
+                if c["op"] in ("conj", "dagger", "norm", "sum", "transpose") and len(a["present"]) >= 2:
+                    mx.append(dict(c, a=dict(a, cx=tuple(a["present"][1:]))))
+            mx, _ = fam.thin(mx, 800 if not thorough else 8000, seed + 6)
+            groups[f"unary-mixed-real-complex/{nm}"] = ([dict(body="body_unary", spec=c, validate=(i % 60 == 0), seed=seed + i)
+                                                         for i, c in enumerate(mx)], False)
         # binary: same indices and charge, every pair of sparsity patterns (thresholded)
         bi = []
         for nd in (1, 2, 3):
